@@ -39,7 +39,7 @@ REACH = {t: ["versions_11", "all_256_message_types", "rssi_min", "rssi_max", "em
              "unicast", "multicast", "broadcast", "ignored_type", "join", "leave", "deny", "leave_of_known_device_same_nwk", "leave_of_known_device_other_nwk", "v14_layout",
              "pre_v14_layout", "versions_mixed_in_one_process", "own_address_changed_mid_run",
              "same_application_reconnected_to_another_version", "join_callbacks_back_to_back",
-             "unicast_during_network_info_reload", "fullstack_c13_judged"] for t in ("quick", "thorough")}
+             "unicast_during_network_info_reload", "fullstack_c13_judged", "callback_under_the_sequence_of_a_timed_out_command"] for t in ("quick", "thorough")}
 SHARD_TIMEOUT = {"quick": 900, "thorough": 3600}
 ID_INCOMING = 0x45
 ID_TCJOIN = 0x24
@@ -125,6 +125,7 @@ def run_shard(desc) -> Acc:
             ctxs.append([V_, ap_.app, ap_.ncp, int(ap_.app.state.node_info.nwk), rec_, ap_])
         types_seen = set()
         seq = 200
+        dead_seq = {}
 
         n = desc["n"]
         n_in = 0
@@ -146,6 +147,17 @@ def run_shard(desc) -> Acc:
                 if new_nwk != ctx[3]:
                     acc.hit("own_address_changed_mid_run")
                 ctx[3] = new_nwk
+            if i % 97 == 50:
+                # a little history: a command the NCP never answers ends by its timeout; callbacks may later arrive under
+                # that sequence number (nothing awaits it any more) and must be translated like any other
+                ncp_ = ctx[2]
+                saved_script = ncp_.script
+                ncp_.script = lambda name, args, seq_: [("none",)] if name == "nop" else (saved_script(name, args, seq_) if saved_script else None)
+                try:
+                    await appharness.ezsp_of(ctx[1]).nop()
+                except BaseException:  # noqa: BLE001
+                    dead_seq[id(ncp_)] = ncp_.requests[-1][3]
+                ncp_.script = saved_script
             hops = desc.get("reconnect") or []
             if hops and i and i % (n // (len(hops) + 1)) == 0 and (i // (n // (len(hops) + 1))) <= len(hops):
                 nv = hops[i // (n // (len(hops) + 1)) - 1]
@@ -223,6 +235,9 @@ def run_shard(desc) -> Acc:
                          binding=rnd.randrange(256), address=rnd.randrange(256), payload=rnd.randbytes(plen),
                          eui64=rnd.randbytes(8), timestamp=rnd.getrandbits(32))
                 seq = (ncp.requests[-1][3] - 1) % 256 if ncp.requests else 200  # a completed command's sequence
+                if dead_seq.get(id(ncp)) is not None and i % 3 == 0:
+                    seq = dead_seq[id(ncp)]
+                    acc.hit("callback_under_the_sequence_of_a_timed_out_command")
                 frame = enc_incoming(V, seq, f)
                 case = {"version": V, "mix": versions, "reconnect": desc.get("reconnect"), "kind": "incoming", "fields": {k: (v.hex() if isinstance(v, bytes) else v) for k, v in f.items()},
                         "frame": frame.hex()}
@@ -296,6 +311,8 @@ def run_shard(desc) -> Acc:
                              status=st_, decision=dec, parent=rnd.choice([0x0000, 0xFFFF, rnd.randrange(65536)]))
                     fields_all.append({k: (v.hex() if isinstance(v, bytes) else v) for k, v in f.items()})
                     seq = (ncp.requests[-1][3] - 1) % 256 if ncp.requests else 200
+                    if dead_seq.get(id(ncp)) is not None and i % 3 == 1:
+                        seq = dead_seq[id(ncp)]
                     frames.append(enc_tcjoin(V, seq, f))
                     if f["ieee"] in KNOWN:
                         acc.hit("known_device_same_nwk" if KNOWN[f["ieee"]] == f["nwk"] else "known_device_other_nwk")
